@@ -115,7 +115,7 @@ MSG = _manual_messages()
 
 
 def budget(tier):
-    return dict(examples=6000 if tier == "quick" else 90000, shards=16)
+    return dict(examples=10000 if tier == "quick" else 90000, shards=16)
 
 
 # ---------------------------------------------------------------- generator
